@@ -46,6 +46,8 @@ def gen_market(rng, mnum, t0, opts):
     close = rng.random() < opts.get("p_close", 0.5)
     for k in range(n):
         pt += rng.choice(SPACINGS) if k else 0
+        if k and opts.get("hour_jumps") and rng.random() < 0.15:
+            pt += rng.choice([1_800_000, 3_600_000, 7_200_000, 86_400_000])
         if suspend_at is not None and k == suspend_at:
             status, version = "SUSPENDED", version + 1
         elif suspend_at is not None and k == suspend_at + suspend_len:
@@ -119,7 +121,8 @@ def gen_scenario(rng, **opts):
                   "latency": {"place": 0.12, "cancel": 0.17, "update": 0.15, "replace": 0.28}},
           "event_processing": bool(opts.get("event_processing")), "dyadic": dyadic,
           "clients": [{"bpe": rng.random() < 0.8, "full": rng.random() < 0.05, "mbv": True,
-                       "txlimit": rng.choice([None, None, 5000, 3, 6]), "commission": 0.05} for _ in range(nc)],
+                       "txlimit": rng.choice([3, 6, 2, None, 5000] if opts.get("small_limits") else [None, None, 5000, 3, 6]),
+                       "commission": 0.05} for _ in range(nc)],
           "strategies": [{"markets": list(range(nm)), "max_order": rng.choice([10, 10, 50, None, 2]), "max_sel": rng.choice([100, 20, 100, None, 5]),
                           "max_market": rng.choice([None, None, 30, 100]), "max_trade": rng.choice([1000000, 1000000, 2, 3]),
                           "max_live": rng.choice([1, 2, 5, 5]), "multi": rng.random() < 0.4} for _ in range(ns)],
